@@ -167,6 +167,9 @@ fn check(def: &DefSpec, run: &mut Run) -> Result<(), (Vec<u8>, String)> {
     inputs.extend(extra_inputs(def));
     for input in &inputs {
         run.eval(1);
+        if input.len() >= 2 {
+            run.sample(|| json!({"definition": p.rust, "input": show(input)}));
+        }
         let f = findings_for("C01", &p, def, input, None, key);
         if let Some(x) = f.first() {
             return Err((input.clone(), format!("on input {}: {}", show(input), x.what)));
